@@ -17,7 +17,13 @@
      CCaller       received by the caller of consume(): the caller's responsibility from here on
      CNacking      found expired (by the background task or by consume()): a shielded nack is on the wire
      CRejecting    finish() has issued the reject
+     CBouncing     (RabbitMQ) a delivery that found the consumer paused or no longer consuming: its callback sleeps 0.1 s and
+                   rejects it - nobody waits for that
      CDead         dead-lettered
+
+   RabbitMQ (`push` = true): the server pushes deliveries.  CTaking1 then reads "delivered by the server (unacknowledged),
+   the consumer's callback has not run yet"; the callback puts the message into the buffer, nacks it if it has expired, or
+   bounces it.  finish() does not wait for deliveries on their way: they bounce.
 
    The model over-approximates on purpose where the property does not care (the background task is not forced to handle
    one message at a time after a nack, the buffer has no capacity or order): every behaviour of the client is a behaviour
@@ -25,12 +31,12 @@
 From Repid Require Import Base.
 
 Inductive cu := CQueue | CDead | CTaking0 | CTaking1 | CTaken | CInHand | CBuffer | CReturning | CUndelivered | CCaller
-              | CNacking | CRejecting.
+              | CNacking | CRejecting | CBouncing.
 Inductive ph := PRun | PFinWait | PFinRejecting | PDone.
 
 Definition cu_code (c : cu) : Z :=
   match c with CQueue => 0 | CDead => 1 | CTaking0 => 2 | CTaking1 => 3 | CTaken => 4 | CInHand => 5 | CBuffer => 6
-             | CReturning => 7 | CUndelivered => 8 | CCaller => 9 | CNacking => 10 | CRejecting => 11 end.
+             | CReturning => 7 | CUndelivered => 8 | CCaller => 9 | CNacking => 10 | CRejecting => 11 | CBouncing => 12 end.
 Definition cu_eqb (a b : cu) : bool := cu_code a =? cu_code b.
 Definition ph_code (p : ph) : Z := match p with PRun => 0 | PFinWait => 1 | PFinRejecting => 2 | PDone => 3 end.
 Definition ph_eqb (a b : ph) : bool := ph_code a =? ph_code b.
@@ -47,7 +53,7 @@ Record hst := mkH {
 
 Inductive hev :=
 | HTakeStart (m : Z) | HTakeApply (m : Z) | HTakeDone (m : Z) | HDetails (m : Z) | HPut (m : Z)
-| HPush (m : Z)
+| HPushStart (m : Z) | HPushDone (m : Z) | HBounce (m : Z) | HBounceDone (m : Z)
 | HNackDone (m : Z)
 | HCallStart | HCallGet (m : Z) | HDeliver (m : Z) | HCancelCall
 | HFinStart | HFinCollect | HRejectDone (m : Z) | HFinDone
@@ -57,8 +63,9 @@ Definition memz (m : Z) (l : list Z) : bool := existsb (Z.eqb m) l.
 Definition setc (s : hst) (m : Z) (c : cu) : Z -> cu := fun x => if x =? m then c else cust s x.
 Definition none_in (s : hst) (p : cu -> bool) : bool := forallb (fun x => negb (p (cust s x))) (ms s).
 
-Definition is_taking (c : cu) : bool := match c with CTaking0 | CTaking1 => true | _ => false end.
 Definition bg_busy (c : cu) : bool := match c with CTaking0 | CTaking1 | CTaken | CInHand => true | _ => false end.
+(* custodies that finish() must not leave behind: in the hands of a background task that is gone, or in the drained buffer *)
+Definition stale (c : cu) : bool := match c with CTaking0 | CTaken | CInHand | CBuffer => true | _ => false end.
 Definition collectable (c : cu) : bool := match c with CTaken | CInHand | CBuffer | CUndelivered => true | _ => false end.
 Definition is_c (c0 : cu) (c : cu) : bool := cu_eqb c0 c.
 
@@ -74,10 +81,15 @@ Definition hstep (s : hst) (e : hev) : option hst :=
   | HTakeStart m =>
       if bgrun s && negb (push s) && none_in s bg_busy then move s m CQueue CTaking0 else None
   | HTakeApply m => move s m CTaking0 CTaking1                 (* shielded: also after the background task was cancelled *)
-  | HTakeDone m => move s m CTaking1 CTaken
+  | HTakeDone m => if push s then None else move s m CTaking1 CTaken
   | HDetails m => if bgrun s then move s m CTaken (if expd s m then CNacking else CInHand) else None
   | HPut m => if bgrun s then move s m CInHand CBuffer else None
-  | HPush m => if push s && ph_eqb (phase s) PRun then move s m CQueue CBuffer else None
+  | HPushStart m =>                                             (* the server delivers until the cancel has reached it *)
+      if push s && (ph_eqb (phase s) PRun || ph_eqb (phase s) PFinWait) then move s m CQueue CTaking1 else None
+  | HPushDone m =>                                              (* the callback runs: one step up to the buffer (or the nack) *)
+      if push s && bgrun s then move s m CTaking1 (if expd s m then CNacking else CBuffer) else None
+  | HBounce m => if push s then move s m CTaking1 CBouncing else None      (* paused, or not consuming any more *)
+  | HBounceDone m => move s m CBouncing CQueue
   | HNackDone m => move s m CNacking CDead
   | HCallStart => if call s then None else Some (with_call s true)
   | HCallGet m =>
@@ -97,7 +109,7 @@ Definition hstep (s : hst) (e : hev) : option hst :=
       if ph_eqb (phase s) PRun
       then Some (mkH (ms s) (cust s) false (call s) PFinWait (expd s) (late s) (push s)) else None
   | HFinCollect =>
-      if ph_eqb (phase s) PFinWait && none_in s is_taking
+      if ph_eqb (phase s) PFinWait && none_in s (is_c CTaking0) && (push s || none_in s (is_c CTaking1))
       then Some (mkH (ms s) (fun x => if collectable (cust s x) then CRejecting else cust s x) (bgrun s) (call s) PFinRejecting
                      (expd s) (late s) (push s))
       else None
